@@ -681,3 +681,6 @@ func VerifTextTerms(text, firstURL string) (bool, []VerifPageGroup) {
 
 // VerifLinkTextToNumber is the page-number finder's linkTextToNumber.
 func VerifLinkTextToNumber(text string) (int, bool) { return pagination.VerifLinkTextToNumber(text) }
+
+// VerifTreeClone is domutil.TreeClone.
+func VerifTreeClone(nodes []*html.Node) *html.Node { return domutil.TreeClone(nodes) }
